@@ -545,8 +545,16 @@ def _transform(rng, lexical=False):
     n = rng.choice([1, 1, 2, 3])
     items = []
     for _ in range(n):
-        k = rng.choice(['matrix', 'translate', 'translate1', 'scale', 'scale1', 'rotate', 'rotate3', 'skewX', 'skewY'])
-        if k == 'matrix':
+        k = rng.choice(['matrix', 'translate', 'translate1', 'scale', 'scale1', 'rotate', 'rotate3', 'skewX', 'skewY', 'flip'])
+        if k == 'flip':
+            # mirror images with equal magnitudes on both axes (the usual "flip y" of a page, a mirrored icon)
+            m = rng.choice(['1', '1', '2', '3', '0.5'])
+            sx, sy = rng.choice([(m, '-' + m), ('-' + m, m)])
+            if rng.random() < 0.6:
+                args, name = [sx, sy], 'scale'
+            else:
+                args, name = [sx, '0', '0', sy, _num(rng, -50, 50), rng.choice(['297', _num(rng, -50, 50)])], 'matrix'
+        elif k == 'matrix':
             args = [_num(rng, -2, 2) for _ in range(4)] + [_num(rng, -50, 50) for _ in range(2)]
             if abs(float(args[0]) * float(args[3]) - float(args[1]) * float(args[2])) < 0.05:
                 args[0], args[3], args[1], args[2] = '1.5', '0.75', '0.25', '-0.5'
